@@ -122,7 +122,13 @@ func (eng *Engine) checkLayout(d *StructDecl, r *StructResult) {
 	var have []string
 	for k := 0; k < st.NumFields(); k++ {
 		f := st.Field(k)
-		s := f.Name() + " " + short(types.TypeString(f.Type(), func(p *types.Package) string { return p.Name() }))
+		own := obj.Pkg()
+		s := f.Name() + " " + short(types.TypeString(f.Type(), func(p *types.Package) string {
+			if p == own {
+				return ""
+			}
+			return p.Name()
+		}))
 		if tag := st.Tag(k); tag != "" {
 			if jt, ok := reflect.StructTag(tag).Lookup("json"); ok {
 				s += " json:" + jt
@@ -217,6 +223,9 @@ func (eng *Engine) callersOf(target string) map[string]bool {
 		// function values taken (not called) also count as uses
 		for _, b := range f.Blocks {
 			for _, in := range b.Instrs {
+				if _, isDbg := in.(*ssa.DebugRef); isDbg {
+					continue
+				}
 				for _, op := range in.Operands(nil) {
 					if fn, ok := (*op).(*ssa.Function); ok && short(funcKey(fn)) == target {
 						if ci, isCall := in.(ssa.CallInstruction); isCall && ci.Common().Value == *op {
